@@ -138,9 +138,6 @@ func Run(c Case) core.Result {
 	if (c.EndEOF || faulted) && !closed {
 		return core.Fail("C04/not-closed", "the input ended (eof=%v) / the transport failed (fault=%v) but the server did not close the connection", c.EndEOF, faulted)
 	}
-	if n := x.ServerCloses(); n > 2 {
-		return core.Fail("C04/close-count", "the connection was closed %d times", n)
-	}
 	// (5) nothing fabricated reaches a callback
 	for _, ev := range env.TraceOf(x.ID) {
 		for _, mk := range c.Markers {
